@@ -18,3 +18,34 @@ def p_implies(I, args, kwargs, node):
 
 
 PRIMS = {'text': p_text, 'implies': p_implies}
+
+
+from .values import VInt  # noqa: E402
+from . import models as _m  # noqa: E402
+
+_letters = z3.Function('spec_letters', z3.IntSort(), z3.IntSort(), z3.IntSort(), z3.StringSort())
+
+
+def p_letters(I, args, kwargs, node):
+    n, base, radix = [_m.as_int(a) for a in args]
+    return VStr(_letters(n, base, radix))
+
+
+def p_unfold_letters(I, args, kwargs, node):
+    """defining equation of letters at n:
+       letters(n) = (letters(n div radix) if n >= radix else '') ++ chr(base + n mod radix)"""
+    n, base, radix = [_m.as_int(a) for a in args]
+    rhs = z3.Concat(z3.If(n >= radix, _letters(_m.py_floordiv(n, radix), base, radix),
+                          z3.StringVal('')),
+                    z3.StrFromCode(base + _m.py_mod(n, radix)))
+    return VBool(z3.Implies(z3.And(n >= 0, radix >= 2), _letters(n, base, radix) == rhs))
+
+
+PRIMS.update({'letters': p_letters, 'unfold_letters': p_unfold_letters})
+
+
+def p_remaining(I, args, kwargs, node):
+    return args[0].fields['remaining']
+
+
+PRIMS['remaining'] = p_remaining
